@@ -51,6 +51,11 @@ CLAIMS = {
          "combined run and in the solo run on the projected history, for every history). Not proved: equality of the action streams (needs a two-run simulation "
          "over transition); that statement is decided by the differential: deterministic machines next to arbitrary neighbours vs alone, implementation and model, "
          "action streams compared call by call.", "DESIGN.md section 4, C10"),
+
+ "C12": ("Theorems C12_sound (validate_machine m = true -> WF_machine m, WF stated over real numbers from the documentation: fractions real in [0,1], "
+         "probabilities real in (0,1], f32 sums in (0,1], targets in range without duplicates, distribution parameters in their documented domains), "
+         "C12_nan_rejected, C12_framework_new (same judgement; a framework from accepted machines and fractions in [0,1] never fails). The model's validators are "
+         "compared with Machine::validate, Framework::new, Machine::from_str and Machine::new on adversarial machines.", "DESIGN.md section 4, C12"),
 }
 
 NOT_YET = "check not built yet (in progress; planned per DESIGN.md section 7)"
